@@ -12,7 +12,19 @@ import (
 
 // lockEnvelope checks that the impure events of p start with Lock(mtx); defer Unlock(mtx) and end with
 // Unlock(mtx); returns the events in between.
+// lockEnvelopeShared: the envelope of a pure reader: the exclusive mode, or the shared mode of a sync.RWMutex.
+func lockEnvelopeShared(p *Path, mtxField string) ([]*Event, bool) {
+	if mid, ok := lockEnvelope(p, mtxField); ok {
+		return mid, true
+	}
+	return lockEnvelopeMode(p, mtxField, "RLock", "RUnlock")
+}
+
 func lockEnvelope(p *Path, mtxField string) ([]*Event, bool) {
+	return lockEnvelopeMode(p, mtxField, "Lock", "Unlock")
+}
+
+func lockEnvelopeMode(p *Path, mtxField, lockName, unlockName string) ([]*Event, bool) {
 	evs := impure(p)
 	if len(evs) < 3 {
 		return nil, false
@@ -27,18 +39,18 @@ func lockEnvelope(p *Path, mtxField string) ([]*Event, bool) {
 		}
 		return loadedField(r) == mtxField
 	}
-	if !(isCall(evs[0], "Lock") && isMtx(evs[0])) {
+	if !(isCall(evs[0], lockName) && isMtx(evs[0])) {
 		return nil, false
 	}
 	last := evs[len(evs)-1]
-	if !(isCall(last, "Unlock") && isMtx(last)) {
+	if !(isCall(last, unlockName) && isMtx(last)) {
 		return nil, false
 	}
-	if !(evs[1].Kind == EvDefer && evs[1].Method == "Unlock" && isMtx(evs[1])) {
+	if !(evs[1].Kind == EvDefer && evs[1].Method == unlockName && isMtx(evs[1])) {
 		// Lock … Unlock written out: the same envelope when nothing else touches the mutex in between and the path
 		// returns (the unlock rule decides separately whether anything in between could leave it locked)
 		for _, e := range evs[1 : len(evs)-1] {
-			if (isCall(e, "Lock") || isCall(e, "Unlock") || e.Kind == EvDefer) && isMtx(e) {
+			if (isCall(e, "Lock") || isCall(e, "Unlock") || isCall(e, "RLock") || isCall(e, "RUnlock") || e.Kind == EvDefer) && isMtx(e) {
 				return nil, false
 			}
 		}
@@ -180,7 +192,7 @@ func execStateMethods(c *Ctx, which map[string]bool) {
 		if ev, ps, name, pos, okk := get("IsCanceledWithResult"); okk {
 			ok := true
 			for _, p := range ps {
-				mid, env := lockEnvelope(p, "mtx")
+				mid, env := lockEnvelopeShared(p, "mtx") // a pure read of the context and the stored cancel result
 				if !env || len(mid) != 1 || !isCall(mid[0], helper) || p.Exit != ExitReturn || len(p.Rets) != 2 || p.Rets[0] != mid[0].Res[0] || p.Rets[1] != mid[0].Res[1] {
 					ok = false
 					c.Fail(name, pos, "must be: Lock; defer Unlock; return isCanceledWithResult()", pathTrace(ev, p))
